@@ -230,6 +230,8 @@ type World struct {
 	HMAC   *oauth2.HMACSHAStrategy
 	// Docs served to Config.HTTPClient (OIDC request_uri) and the JWKS fetcher.
 	Docs map[string]string
+	// DocErr: URLs whose fetch fails at transport level with the given error.
+	DocErr map[string]error
 	JWKS map[string]*jose.JSONWebKeySet
 	// Secrets in cleartext per client id (the store holds hashes).
 	Secrets map[string]string
@@ -255,6 +257,9 @@ func (s stubFetcher) Resolve(ctx context.Context, location string, ignoreCache b
 type docTransport struct{ w *World }
 
 func (d docTransport) RoundTrip(r *http.Request) (*http.Response, error) {
+	if e, bad := d.w.DocErr[r.URL.String()]; bad {
+		return nil, e
+	}
 	body, ok := d.w.Docs[r.URL.String()]
 	code := 200
 	if !ok {
